@@ -1,6 +1,39 @@
 """Per-property check configuration (levels, budgets, evidence texts)."""
 
 CONFIG = {
+    "C09": {
+        "level": "exploration",
+        "engine": "A (simulated Dask cluster)",
+        "technique": "deterministic simulation with fault injection: the real dask.local scheduler core driven by a simulated executor whose completion order, worker count, transport and faults come from a seeded tape; NumPy twin as reference model",
+        "design_ref": "DESIGN.md section 3 and section 6 (C09)",
+        "level_text": ("Seeded search over schedules (task completion orders of Dask's own local scheduler core and "
+                       "arbitrary topological orders), worker counts, shared/pickled transports, chunk layouts, "
+                       "pipelines of public operations and compute-time faults (abort, failing task); every run "
+                       "compares the Dask result with the NumPy twin and checks laziness with sentinel sources and a "
+                       "default-scheduler tripwire. Sampling is the honest level: the schedule space is unbounded."),
+        "level_note": ("Trusted: Dask graph construction and dask.local.get_async (real code), NumPy/SciPy kernels; tasks "
+                       "are atomic (no pre-emption inside a task except pulsarbat frames in the pre-emptive sub-mode); "
+                       "values compared bit-for-bit, alarm only above tau = 64 eps (1+log2 N) max|ref| per op."),
+        "quick_runs": 30000,
+        "thorough_runs": 150000,
+        "quick_wall_cap": 300,
+        "thorough_wall_cap": 3000,
+        "block": 25,
+        "rule": ("A case is one seeded run: a signal (class, shape, dtype, metadata), its Dask twin over sentinel "
+                 "sources with a tape-drawn chunk layout, a pipeline of 1-4 public operations applied to both, "
+                 "then 2-4 computes of the lazy result under simulated schedulers (mode, workers, chunksize, "
+                 "transport, completion order, optional abort/task failure). Non-trivial = at least one operation "
+                 "succeeded on both and more than one task executed; distinct = distinct SHA-256 of the event log "
+                 "(case, operations, schedules, task completion order hashes)."),
+        "assumptions": [
+            "the three local schedulers are modelled by dask.local.get_async with W workers and identity (threaded/synchronous) or cloudpickle (multiprocess, incl. cull+fuse) transport; dask.distributed is not installed and not modelled",
+            "tasks execute atomically at their completion instant",
+            "a difference below tau (see level_note) is counted, not alarmed",
+            "a build-time exception from an FFT/reshape-based operation on input chunked along a transformed axis means 'chunking not accepted'",
+        ],
+        "real_vs_stub": {"real": ["pulsarbat (current working tree)", "dask graph construction/optimisation", "dask.local.get_async state machine, order(), cull, fuse", "numpy/scipy kernels", "cloudpickle"],
+                         "stub": ["executor and result queue (simulated workers)", "scheduling policy in free-order mode"]},
+    },
     "C14": {
         "level": "fault_enumeration",
         "engine": "C (shared-heap crash-point simulator)",
@@ -15,7 +48,7 @@ CONFIG = {
         "level_note": ("Trusted: CPython sys.settrace semantics; NumPy/SciPy/Dask/astropy calls are atomic between "
                        "crash points; the snapshot function (sim/snapshot.py). Sampled, not exhaustive, over "
                        "histories; exhaustive over line-level crash points of each tested step up to the cap."),
-        "quick_runs": 1400,
+        "quick_runs": 900,
         "thorough_runs": 40000,
         "quick_wall_cap": 240,
         "thorough_wall_cap": 3000,
@@ -60,12 +93,13 @@ NOT_APPLICABLE = {
     "C18": "integer functions memoised by lru_cache under CPython's own lock; neither call history nor caller threads can change a result",
     "C19": "real_to_complex is a pure array map (the reader path that depends on it is checked in C11 against an independent conversion)",
     "C20": "equality with a reference DFT and STFT labelling are functions of the input; the lazy-on-Dask clause is a C09 operation",
-    "C09": "PENDING: claimed in DESIGN.md, Engine A under construction in this commit",
     "C11": "PENDING: claimed in DESIGN.md, Engine B under construction in this commit",
 }
 
 MANIFEST_TEXT = {
     "engines": [
+        {"name": "A", "path": "sim/dasksim.py (scheduler), sim/c09.py (scenario)", "serves_properties": ["C09"],
+         "kind_free_text": "simulated Dask cluster: the real dask.local.get_async state machine driven by a simulated executor (tape-chosen completion order, worker count, chunksize, shared/pickled/mixed transport, abort and task-failure faults) plus a free-order graph walker; NumPy twin as reference model; sentinel sources and a default-scheduler tripwire for laziness"},
         {"name": "C", "path": "sim/heapsim.py", "serves_properties": ["C14"],
          "kind_free_text": "shared-heap crash-point simulator: seeded call histories over caller-owned buffers, exception injection at every line event of pulsarbat frames via sys.settrace, byte-exact snapshot oracle"},
     ],
